@@ -244,7 +244,7 @@ def location(ctx):
                 fd.function = fam.get(m.name, 'Aberrations[precalculation]'
                                       if m is pre else m.qual)
                 res.fail(fd)
-    res.require(60, 'subscripts')
+    res.require(40, 'subscripts')
     return res
 
 
@@ -820,5 +820,11 @@ def operand_wrap(ctx):
     return res
 
 
-RULES = [lazy_def_use, location, formulas_and_degrees, identities,
+def no_stale(ctx):
+    from .common import stale_cache
+    return stale_cache(ctx, 'NO-STALE-STATE', ['Aberrations'],
+                       'aberration terms no longer describe the current lens')
+
+
+RULES = [no_stale, lazy_def_use, location, formulas_and_degrees, identities,
          operand_wrap]
